@@ -320,6 +320,14 @@ def main():
             if txt != f"self . work . {acc} ( index )":
                 raise CannotTranslate(f"{result}::{acc} is not a plain delegation: `{txt}`")
             parts.append(f"/-- `{result}::{acc}`: `{txt}` -/\ndef {result}_{acc}_delegates : Bool := true\n")
+            # the iterator constructor: `<acc>_iter(&self)` is `<It>::new(self.work)` (a fresh iterator over the same work)
+            cands = [x for x in items if x[1] == acc + "_iter" and re.search(rf"^impl\s+{result}\b", x[0])]
+            if len(cands) != 1:
+                raise CannotTranslate(f"{file}: expected exactly one `{result}::{acc}_iter`")
+            txt = " ".join(t[1] for t in cands[0][3])
+            if txt != f"{it} :: new ( self . work )":
+                raise CannotTranslate(f"{result}::{acc}_iter is not `{it}::new(self.work)`: `{txt}`")
+            parts.append(f"/-- `{result}::{acc}_iter`: `{txt}` -/\ndef {result}_{acc}_iter_is_new : Bool := true\n")
     except CannotTranslate as e:
         print(f"CANNOT-TRANSLATE: {e}")
         return 3
